@@ -313,7 +313,10 @@ func (s *ServerBase) serveDNSMsgInternal(
 			addEDE(req, resp, dns.ExtendedErrorCodeNetworkError, "")
 		}
 
-		err = rw.WriteMsg(ctx, req, resp)
+		// Don't use the deadline of ctx, since its expiration could be the
+		// reason for the error, and the response writers for plain DNS and
+		// DNS-over-TLS use it as the write deadline.
+		err = rw.WriteMsg(context.WithoutCancel(ctx), req, resp)
 		if err != nil {
 			log.Debug("[%d]: error writing a response: %s", req.Id, err)
 		}
